@@ -227,6 +227,8 @@ class Normalizer:
             if isinstance(base, ast.Name) and base.id in self.env:
                 inner = self._n(base)
                 return self._atom("(%s).%s" % (inner.canon(), e.attr))
+            if isinstance(base, ast.Call):
+                return self._atom("(%s).%s" % (self._n(base).canon(), e.attr))
             return self._atom(ast.unparse(e))
         if isinstance(e, ast.Subscript):
             v = self._n(e.value).canon()
